@@ -267,12 +267,15 @@ def maxHold (h : History) : Nat :=
     | _ => acc) (0, [], 0)).2.2
 
 /-- The fault budget under which retransmit exhaustion cannot legitimately occur (`d` drops, every
-    packet delivered within `hold` rounds): a segment goes out at passes 0, thr, …, max·thr and the
-    connection aborts at pass (max+1)·thr; the pass counter is not reset when the handshake
-    completes (up to thr−1 passes lost). -/
+    packet delivered within `hold` rounds). A segment goes out at passes 0, thr, …, max·thr of its
+    connection's counter and the connection aborts at pass (max+1)·thr. The answer to a segment
+    emitted at pass p and held `h` rounds, whose answer is held `h` rounds too, is processed before
+    pass p + 2h + 2; a SYN is already one pass old when it first leaves (the counter is bumped before
+    the first drain), and before the F-C06-5 repair up to thr − 1 handshake passes carry over; every
+    drop costs thr passes. Hence: `2·hold + max 2 thr < (max + 1 − d)·thr`. -/
 def withinBudget (cfg : Cfg) (h : History) : Bool :=
   decide (dropCount h < cfg.retxMax) &&
-    decide (2 * maxHold h < (cfg.retxMax - dropCount h) * cfg.retxThreshold)
+    decide (2 * maxHold h + max 2 cfg.retxThreshold < (cfg.retxMax + 1 - dropCount h) * cfg.retxThreshold)
 
 /-- Did an application give up a handle (drop a stream / listener, cancel a connect)? The liveness
     oracle only speaks about histories in which both applications keep their handles. -/
@@ -331,7 +334,8 @@ def c06Liveness (cfg : Cfg) (h : History) : Option String :=
     how many packets its rule dropped and the longest delay it imposed (in scheduler ticks = egress
     rounds), and every blocking call was given far more patience than a retransmit cycle. -/
 def c06LivenessE2E (cfg : Cfg) (drops hold : Nat) (h : History) : Option String :=
-  if decide (drops < cfg.retxMax) && decide (2 * hold < (cfg.retxMax - drops) * cfg.retxThreshold) then
+  if decide (drops < cfg.retxMax) &&
+      decide (2 * hold + max 2 cfg.retxThreshold < (cfg.retxMax + 1 - drops) * cfg.retxThreshold) then
     c06LivenessCore h
   else none
 
